@@ -1249,21 +1249,6 @@ def oracle_frame(ctx, k, c, rep, out, fam, buf, why, sums, qd, sock):
                 ctx.fail(f"C18/{tag}{k}/raised/{fam}-for-a-wellformed-message", "parse error on a well-formed framed message", rep)
 
 
-_LF = None
-
-
-def lf_accepted():
-    """does dns.ipv6.inet_aton (as shipped) accept a newline after a dotted-quad ending ('$' matches before a trailing newline)"""
-    global _LF
-    if _LF is None:
-        try:
-            dns.inet.inet_pton(AF6, "::1.2.3.4\n")
-            _LF = True
-        except Exception:
-            _LF = False
-    return _LF
-
-
 def eval_small(ctx: Ctx, c: dict):
     k = c["kind"]
     rep = {"kind": k, "case": c}
@@ -1278,12 +1263,9 @@ def eval_small(ctx: Ctx, c: dict):
             impl = "err NotImplemented"
         except Exception as e:
             impl = "err FOREIGN:" + type(e).__name__
-        if "\n" in text.split("%")[0] and not lf_accepted():
-            # dns.ipv6's dot-quad pattern no longer lets a trailing newline through (corpus/C18/FIX-ipv6-trailing-newline.diff applied):
-            # the model describes the shipped pattern, so such texts are only checked against the plain rule "not an address"
-            if impl.startswith("ok"):
-                ctx.fail("C18/inet_pton/invalid-text-accepted", f"inet_pton({text!r}) -> {impl}", rep)
-            return
+        if "\n" in text.split("%")[0] and impl.startswith("ok"):
+            # repaired in 0148a06: the dot-quad pattern ends in \Z, no text with a newline in its address part is an address
+            ctx.fail("C18/inet_pton/invalid-text-accepted", f"inet_pton({text!r}) -> {impl}", rep)
         ctx.corr(f"c18.pton {c['af']} {hx(text.encode('ascii'))}", impl, c)
         ctx.count("pton." + impl.split(" ")[0] + (":" + impl.split(" ")[1] if impl.startswith("err") else ""))
         if c.get("bin") is not None and fam_of_af(c["af"]) == c.get("fam") and impl != "ok " + c["bin"]:
